@@ -147,6 +147,18 @@ func Builtin(label string) *Units {
 			{86400, [4]string{"d", "d", "day", "days"}},
 			{3600, [4]string{"H", "H", "hour", "hours"}},
 			{60, [4]string{"m", "m", "minute", "minutes"}}}}
+	case "dbytes":
+		return &Units{Label: label, Base: Unit{1, [4]string{"B", "B", "byte", "bytes"}}, Mults: []Unit{
+			{1000000000000000, [4]string{"PB", "PB", "petabyte", "petabytes"}},
+			{1000000000000, [4]string{"TB", "TB", "terabyte", "terabytes"}},
+			{1000000000, [4]string{"GB", "GB", "gigabyte", "gigabytes"}},
+			{1000000, [4]string{"MB", "MB", "megabyte", "megabytes"}},
+			{1000, [4]string{"kB", "kB", "kilobyte", "kilobytes"}}}}
+	case "dsec":
+		return &Units{Label: label, Base: Unit{1, [4]string{"s", "s", "second", "seconds"}}, Mults: []Unit{
+			{1000000, [4]string{"d", "d", "day", "days"}},
+			{10000, [4]string{"H", "H", "hour", "hours"}},
+			{100, [4]string{"m", "m", "minute", "minutes"}}}}
 	case "chars":
 		return &Units{Label: label, Base: Unit{1, [4]string{"char", "chars", "character", "characters"}}}
 	case "pct":
